@@ -11,7 +11,7 @@
 
 use serde_json::{json, Value};
 use std::sync::atomic::{AtomicBool, AtomicU64, Ordering};
-use std::sync::{Arc, Mutex};
+use std::sync::Arc;
 use std::time::Instant;
 use vcheck::report::{self, EvidenceMeta, KnownFindings, Report};
 use vcheck::{panics, props, util, Gen, PropDef, Tier};
@@ -34,6 +34,59 @@ fn main() {
             for p in props::all() {
                 println!("{}", p.id);
             }
+        }
+        "corpus" => {
+            // vcheck corpus <peer_script|frames|qpack> <dir> [n] [seed]: seed inputs for the libFuzzer targets
+            let target = args.get(2).map(|s| s.as_str()).unwrap_or("");
+            let dir = args.get(3).cloned().unwrap_or_else(|| ".".into());
+            let n: usize = args.get(4).and_then(|s| s.parse().ok()).unwrap_or(200);
+            let seed: u64 = args.get(5).and_then(|s| s.parse().ok()).unwrap_or(1);
+            let seeds = match target {
+                "peer_script" => props::c06::fuzz_seeds(n, seed),
+                "frames" => props::c02::fuzz_seeds(n, seed),
+                "qpack" => props::c11::fuzz_seeds(n, seed),
+                _ => {
+                    eprintln!("unknown fuzz target {}", target);
+                    std::process::exit(2);
+                }
+            };
+            let _ = std::fs::create_dir_all(&dir);
+            for (i, s) in seeds.iter().enumerate() {
+                let _ = std::fs::write(format!("{}/seed-{:04}", dir, i), s);
+            }
+            println!("{} seeds written to {}", seeds.len(), dir);
+        }
+        "fuzz-replay" => {
+            // vcheck fuzz-replay <target> <file> [--known K]: re-execute a libFuzzer input under the monitors
+            let target = args.get(2).cloned().unwrap_or_default();
+            let file = args.get(3).cloned().unwrap_or_default();
+            let Some(prop) = vcheck::fuzzing::property_of(&target) else {
+                eprintln!("unknown fuzz target {}", target);
+                std::process::exit(2);
+            };
+            let data = match std::fs::read(&file) {
+                Ok(d) => d,
+                Err(e) => {
+                    eprintln!("cannot read {}: {}", file, e);
+                    std::process::exit(2);
+                }
+            };
+            let known = KnownFindings::load(arg_val(&args[2..], "--known").as_deref());
+            let mut bad = false;
+            for (sig, detail) in vcheck::fuzzing::run(&target, &data) {
+                if let Some(desc) = known.lookup(prop, &sig) {
+                    println!("KNOWN-FINDING: property={} {} :: {}", prop, sig, desc);
+                } else {
+                    println!("VIOLATION property={} replay={}", prop, file);
+                    println!("  signature: {}", sig);
+                    println!("  detail: {}", detail);
+                    bad = true;
+                }
+            }
+            if !bad {
+                println!("{} input {} ({} bytes): no violation", target, file, data.len());
+            }
+            std::process::exit(if bad { 1 } else { 0 });
         }
         "run" => {
             let code = cmd_run(&args[2..]);
@@ -150,8 +203,32 @@ fn cmd_run(args: &[String]) -> i32 {
         })
         .collect();
 
-    // work queue: (gen idx, next index)
-    let cursor = Arc::new(Mutex::new((0usize, 0u64)));
+    // work queue: batches (gen idx, lo, hi). The lite tier (Miri / sanitizer builds, often cut
+    // short by --max-secs) takes one case of every generator in turn so that a slow generator
+    // cannot starve the others.
+    let mut batches: Vec<(usize, u64, u64)> = Vec::new();
+    if tier == Tier::Lite {
+        let maxc = gens.iter().map(|g| g.count).max().unwrap_or(0);
+        for index in 0..maxc {
+            for (gi, g) in gens.iter().enumerate() {
+                if index < g.count {
+                    batches.push((gi, index, index + 1));
+                }
+            }
+        }
+    } else {
+        for (gi, g) in gens.iter().enumerate() {
+            let batch = (g.count / 256).clamp(1, 64);
+            let mut lo = 0;
+            while lo < g.count {
+                let hi = (lo + batch).min(g.count);
+                batches.push((gi, lo, hi));
+                lo = hi;
+            }
+        }
+    }
+    let batches = Arc::new(batches);
+    let cursor = Arc::new(AtomicU64::new(0));
     let done_counts: Arc<Vec<AtomicU64>> =
         Arc::new(gens.iter().map(|_| AtomicU64::new(0)).collect());
     let timed_out = Arc::new(AtomicBool::new(false));
@@ -159,6 +236,7 @@ fn cmd_run(args: &[String]) -> i32 {
     let mut handles = Vec::new();
     for _ in 0..threads.max(1) {
         let cursor = cursor.clone();
+        let batches = batches.clone();
         let gens = gens.clone();
         let done_counts = done_counts.clone();
         let timed_out = timed_out.clone();
@@ -176,22 +254,8 @@ fn cmd_run(args: &[String]) -> i32 {
                             break;
                         }
                         // grab a batch
-                        let (gi, lo, hi) = {
-                            let mut c = cursor.lock().unwrap();
-                            while c.0 < gens.len() && c.1 >= gens[c.0].count {
-                                c.0 += 1;
-                                c.1 = 0;
-                            }
-                            if c.0 >= gens.len() {
-                                break;
-                            }
-                            let g = &gens[c.0];
-                            let batch = (g.count / 256).clamp(1, 64);
-                            let lo = c.1;
-                            let hi = (lo + batch).min(g.count);
-                            c.1 = hi;
-                            (c.0, lo, hi)
-                        };
+                        let bi = cursor.fetch_add(1, Ordering::Relaxed) as usize;
+                        let Some(&(gi, lo, hi)) = batches.get(bi) else { break };
                         let g = &gens[gi];
                         for index in lo..hi {
                             let cs = util::case_seed(seed, g.name, index);
